@@ -179,6 +179,7 @@ func run() int {
 			d.Cfg.Params = d.ParamsQ
 		}
 		d.Cfg.Tier = *flagTier
+		d.Cfg.CrossCheck = (*flagTier == "thorough" || os.Getenv("VERIF_CROSSCHECK") != "") && os.Getenv("VERIF_CROSSCHECK") != "0" && replay == nil
 		d.Cfg.Solver = *flagSolver
 		if *flagMaxPaths > 0 {
 			d.Cfg.MaxPaths = *flagMaxPaths
